@@ -500,6 +500,8 @@ def run(ctx):
     level_independence(ctx, 'C05')
     from .. import grammar_shapes
     grammar_shapes.check_child_fields(ctx, 'C05')
+    from .. import gensim
+    gensim.check_exit_admission(ctx, 'C05')
     return ('Table agreement between node names and pass handler names; a '
             'located-ness rule over all CompileError/SyntaxError '
             'constructions; obligation/discharge analysis between code '
